@@ -15,6 +15,7 @@ import BB.Driver.OpsTree
 import BB.Driver.OpsPy
 import BB.Driver.OpsPyTape
 import BB.Driver.OpsProver
+import BB.Driver.OpsProver2
 
 namespace BB.Driver
 
@@ -159,6 +160,8 @@ def handle (op : String) (args : List String) (text : String) : String :=
     | none => match OpsPyTape.handle op args text with
     | some r => r
     | none => match OpsProver.handle op args text with
+    | some r => r
+    | none => match OpsProver2.handle op args text with
     | some r => r
     | none => "BAD-OP"
 
